@@ -637,6 +637,7 @@ def offending_writers(F, field, allowed, adt=None):
     cm = callers_map(F)
     bad = set()
     seen = set()
+    via = set()          # allowed functions that write through a private helper
     work = [(n, g) for n, g in direct.items() if n not in allowed]
     while work:
         n, g = work.pop()
@@ -651,14 +652,45 @@ def offending_writers(F, field, allowed, adt=None):
             continue
         for c in cs:
             cn = c.split("::")[-1]
-            if cn in allowed or cn in seen:
+            if cn in allowed:
+                via.add(cn)
+                continue
+            if cn in seen:
                 continue
             cg = F.fns.get(c)
             if cg is None:
                 bad.add(n)
             else:
                 work.append((cn, cg))
-    return bad, set(direct)
+    return bad, set(direct) | via
+
+
+def offending_callers(F, callee_paths, allowed):
+    """Owners of call sites of the given functions that are neither in `allowed` nor private helpers reached (transitively)
+    only from allowed functions.  Returns (offending owner names, allowed functions that do reach a call site)."""
+    cm = callers_map(F)
+    bad, via = set(), set()
+    seen = set()
+    work = []
+    for cp in callee_paths:
+        for c in cm.get(cp, set()):
+            work.append(c)
+    while work:
+        c = work.pop()
+        if c in seen:
+            continue
+        seen.add(c)
+        cn = c.split("::")[-1]
+        if cn in allowed:
+            via.add(cn)
+            continue
+        g = F.fns.get(c)
+        cs = cm.get(c, set())
+        if g is None or g.get("pub") or not cs:
+            bad.add(cn)
+            continue
+        work.extend(cs)
+    return bad, via
 
 
 def rc_possible(F, p, term, adt):
